@@ -142,4 +142,19 @@ def c09 (g : Globals) (db : DB) (ss : List Stmt) : Option String :=
 
 def c07 (_g : Globals) (_db : DB) (_ss : List Stmt) : Option String := none
 
+/-- some table or column name of the schema is printed back with quotes by the postgres parser -/
+def anyPgQuoted (db : DB) : Bool := db.any fun t => pgQuoted t.name || t.cols.any (fun c => pgQuoted c.name)
+
+def c14 (g : Globals) (db : DB) (ss : List Stmt) : Option String :=
+  match g.dialect with
+  | .mysql => none
+  | .sqlite => some "sqlite-quoted-identifiers"
+  | .postgres =>
+    if anyPgQuoted db then some "postgres-quoted-identifiers"
+    else if hasColumnOptions db then some "postgres-column-options"
+    else if hasForeignKeys db then some "postgres-foreign-keys"
+    else if pgFragment "" ss then none else some "postgres-reader-vocabulary"
+
+def c15 (_g : Globals) (_db : DB) (_ss : List Stmt) : Option String := none
+
 end Sqlize.Spec.Scope
